@@ -5,7 +5,6 @@ package main
 
 import (
 	"fmt"
-	"go/types"
 
 	"golang.org/x/tools/go/ssa"
 )
@@ -27,14 +26,6 @@ func (c *Ctx) runContract(rep, real *ssa.Function, args []Value, st *State, site
 		return outs
 	}
 	for _, o := range outs {
-		called, _ := o.st.ghost["$called"].(*Term)
-		if called == nil || !called.IsTrue() {
-			fail("contract %s: verif.Call() was not reached on a returning path", rep.Name())
-		}
-		// return value agreement
-		if rv, ok := o.st.ghost["$ret"]; ok && rv != nil && o.ret != nil {
-			c.addOb(o.st, "ensures", "ensures["+real.Name()+"] return value as specified", "", c.retEq(rv, o.ret))
-		}
 		// frame: everything that existed before and was not declared havoced is unchanged
 		for obj, before := range cf.memSnap {
 			after, ok := o.st.mem[obj]
@@ -124,47 +115,4 @@ func (c *Ctx) frameEq(obj *Object, path []PathElem, before, after Value, hav []P
 		return Eq(x, y)
 	}
 	return BoolC(valuesIdentical(before, after))
-}
-
-// verifCall implements verif.Call(): in prove mode the real function runs here.
-func (c *Ctx) verifCall(st *State, site ssa.Instruction) []Outcome {
-	cf := c.topContract()
-	if cf == nil {
-		fail("verif.Call() outside a contract")
-	}
-	if !cf.prove {
-		return []Outcome{{st, nil}}
-	}
-	// run the real function; contracts of *other* functions stay in force
-	saved := c.curContract
-	c.curContract = append(append([]*contractFrame{}, saved...), &contractFrame{real: cf.real, prove: true, fn: nil})
-	outs := c.callFunction(cf.real, cf.args, nil, st, site)
-	c.curContract = saved
-	for _, o := range outs {
-		o.st.ghost["$called"] = TrueT
-		o.st.ghost["$ret"] = o.ret
-	}
-	for i := range outs {
-		outs[i].ret = nil
-	}
-	return outs
-}
-
-// verifRet implements verif.RetXxx(i): the real return value when proving, a fresh value when used.
-func (c *Ctx) verifRet(st *State, idx int, s Sort, t types.Type) Value {
-	cf := c.topContract()
-	if cf == nil {
-		fail("verif.Ret outside a contract")
-	}
-	if cf.prove {
-		rv := st.ghost["$ret"]
-		if tv, ok := rv.(*TupleV); ok {
-			return tv.E[idx]
-		}
-		if idx != 0 {
-			fail("verif.Ret(%d) of a single result", idx)
-		}
-		return rv
-	}
-	return Var(c.freshName("ret_"+cf.real.Name()), s)
 }
